@@ -1525,6 +1525,38 @@ def run_c12(R, r, rep, stats, lens, mode, vcache, thorough, divergences, oracle_
             oracle_fails.append((None, "# C12: a signature is returned together with %s\n%s\n" % (code, line[:6000])))
         if code != m:
             divergences.append(("generate_signature return code", line, code, m))
+    # other valid encodings of the signer's private key (RFC 5915: the public key is optional; the point may be compressed): a router
+    # key exported in such a form is the same key - the signature must be produced and must verify under the same public key
+    import re as _re
+    fl, fmeta = [], []
+    sel = [p for p in paths if not p.get("dead")][:24 if not thorough else 400]
+    forms = R.impl(["keyforms " + p["keys"][len(p["segs"]) - 1].priv.hex() for p in sel])
+    fd = []
+    for p in sel:
+        n = len(p["segs"])
+        d = p["base"].copy()
+        d.path = p["segs"][n - 1:]
+        d.sigs = []
+        d.target = p["segs"][n - 2][2] if n > 1 else p["final"]
+        fd.append(d)
+    fdg = R.model(["sdigest " + d.toks() for d in fd])
+    for p, d, fo, dg in zip(sel, fd, forms, fdg):
+        w = fo.split()
+        if len(w) != 3 or w[0] != "forms":
+            continue
+        k = p["keys"][len(p["segs"]) - 1]
+        for label, hx in (("without the optional public key", w[1]), ("public point compressed", w[2])):
+            fl.append("gensig %s %s V %s %s" % (d.toks(), hx, k.spki.hex(), dg))
+            fmeta.append((label, len(hx) // 2))
+    fout = R.impl(fl)
+    stats["private_key_encodings"] = {"requests": len(fl), "lengths": sorted(set(m[1] for m in fmeta)), "signed_and_verified": 0}
+    for line, (label, ln), o in zip(fl, fmeta, fout):
+        if _re.match(GOOD_RE, o):
+            stats["private_key_encodings"]["signed_and_verified"] += 1
+        else:
+            oracle_fails.append((None, "# C12: the router's private key in another valid RFC 5915 encoding (%s, %d octets): rtr_bgpsec_generate_signature "
+                                 "answered '%s' - no signature that verifies under the key's public half\n%s\n" % (label, ln, o[:120], line[:6000])))
+            break
     # well-formedness of every generated signature, judged by the independent strict DER parser
     stats["generated_signatures_strict_der_checked"] = len(gensigs)
     for hx in sorted(gensigs):
